@@ -195,6 +195,8 @@ func (f *Frame) execCall(st *State, x *ssa.Call) Value {
 						ptypes = append(ptypes, sig.Params().At(i).Type())
 					}
 					vc.note("the function stored in %s is assumed to satisfy its field contract", short)
+					f.callAsserts(st, x, key[strings.LastIndex(key, ".")+1:])
+					f.logFieldCall(st, key, cc)
 					return f.contractCall(st, x, fc, nil, args, ptypes, sig.Results(), short[j+1:])
 				}
 			}
@@ -202,26 +204,37 @@ func (f *Frame) execCall(st *State, x *ssa.Call) Value {
 	}
 	// call through a function value: if the value was loaded from a struct field the
 	// call is recorded in a ghost log (ncalls / callarg spec functions)
+	if key := funcFieldKey(cc.Value); key != "" {
+		// call-site assertions of the caller's contract, named by the field ("callassert op: ...")
+		f.callAsserts(st, x, key[strings.LastIndex(key, ".")+1:])
+	}
 	vc.havocAll(st, "call through function value in "+f.fn.Name())
 	if key := funcFieldKey(cc.Value); key != "" {
-		B := vc.B
-		nk := "ghost:ncalls:" + key
-		vc.heapSet(st, nk, B.Store(vc.heapGet(st, nk), B.Int(0), B.Add(B.Select(vc.heapGet(st, nk), B.Int(0)), B.Int(1))))
-		for i, a := range cc.Args {
-			ak := fmt.Sprintf("ghost:arg%d:%s", i+1, key)
-			switch v := f.lookup(st, a).(type) {
-			case VT:
-				if v.T.sort == SInt {
-					vc.heapSet(st, ak, B.Store(vc.heapGet(st, ak), B.Int(0), v.T))
-				}
-			case VPtr:
-				if v.Cell == nil {
-					vc.heapSet(st, ak, B.Store(vc.heapGet(st, ak), B.Int(0), v.Addr))
-				}
+		f.logFieldCall(st, key, cc)
+	}
+	return fresh()
+}
+
+// logFieldCall records a call through a function-typed struct field in the ghost call log
+// (ncalls / callarg spec functions).
+func (f *Frame) logFieldCall(st *State, key string, cc *ssa.CallCommon) {
+	vc := f.vc
+	B := vc.B
+	nk := "ghost:ncalls:" + key
+	vc.heapSet(st, nk, B.Store(vc.heapGet(st, nk), B.Int(0), B.Add(B.Select(vc.heapGet(st, nk), B.Int(0)), B.Int(1))))
+	for i, a := range cc.Args {
+		ak := fmt.Sprintf("ghost:arg%d:%s", i+1, key)
+		switch v := f.lookup(st, a).(type) {
+		case VT:
+			if v.T.sort == SInt {
+				vc.heapSet(st, ak, B.Store(vc.heapGet(st, ak), B.Int(0), v.T))
+			}
+		case VPtr:
+			if v.Cell == nil {
+				vc.heapSet(st, ak, B.Store(vc.heapGet(st, ak), B.Int(0), v.Addr))
 			}
 		}
 	}
-	return fresh()
 }
 
 // funcFieldKey: the called function value was loaded from struct field T.f.
